@@ -75,6 +75,8 @@ pub struct Cfg {
     pub keep_log: bool,
     /// low-level Radau/BDF only: builder option newton_tol
     pub newton_tol: Option<f64>,
+    /// dense_output flag of the low-level builders (None = their documented default, true)
+    pub low_dense: Option<bool>,
 }
 
 impl Cfg {
@@ -99,6 +101,7 @@ impl Cfg {
             budget: 2_000_000,
             keep_log: false,
             newton_tol: None,
+            low_dense: None,
         }
     }
     pub fn tol(mut self, rtol: f64, atol: f64) -> Self {
@@ -263,13 +266,13 @@ pub fn run_lowlevel(
         Method::RK4 => {
             let h = c.first_step.unwrap_or((c.xend - c.x0) / 100.0);
             let s = match c.max_steps {
-                Some(m) => RK4::builder().max_steps(m).build(),
-                None => RK4::builder().build(),
+                Some(m) => RK4::builder().maybe_dense_output(c.low_dense).max_steps(m).build(),
+                None => RK4::builder().maybe_dense_output(c.low_dense).build(),
             };
             s.solve(&probe, c.x0, &c.y0, c.xend, h, Some(&mut so))
         }
         Method::RK23 => {
-            let b = RK23::builder().maybe_max_step(c.max_step).maybe_first_step(c.first_step);
+            let b = RK23::builder().maybe_dense_output(c.low_dense).maybe_max_step(c.max_step).maybe_first_step(c.first_step);
             let s = match c.max_steps {
                 Some(m) => b.max_steps(m).build(),
                 None => b.build(),
@@ -277,7 +280,7 @@ pub fn run_lowlevel(
             s.solve(&probe, c.x0, &c.y0, c.xend, rtol, atol, Some(&mut so))
         }
         Method::DOPRI5 => {
-            let b = DOPRI5::builder().maybe_max_step(c.max_step).maybe_first_step(c.first_step);
+            let b = DOPRI5::builder().maybe_dense_output(c.low_dense).maybe_max_step(c.max_step).maybe_first_step(c.first_step);
             let s = match c.max_steps {
                 Some(m) => b.max_steps(m).build(),
                 None => b.build(),
@@ -285,7 +288,7 @@ pub fn run_lowlevel(
             s.solve(&probe, c.x0, &c.y0, c.xend, rtol, atol, Some(&mut so))
         }
         Method::DOP853 => {
-            let b = DOP853::builder().maybe_max_step(c.max_step).maybe_first_step(c.first_step);
+            let b = DOP853::builder().maybe_dense_output(c.low_dense).maybe_max_step(c.max_step).maybe_first_step(c.first_step);
             let s = match c.max_steps {
                 Some(m) => b.max_steps(m).build(),
                 None => b.build(),
@@ -293,7 +296,7 @@ pub fn run_lowlevel(
             s.solve(&probe, c.x0, &c.y0, c.xend, rtol, atol, Some(&mut so))
         }
         Method::RADAU => {
-            let b = RADAU::builder().maybe_max_step(c.max_step).maybe_first_step(c.first_step).jac_storage(c.jac_storage.clone()).maybe_newton_tol(c.newton_tol);
+            let b = RADAU::builder().maybe_dense_output(c.low_dense).maybe_max_step(c.max_step).maybe_first_step(c.first_step).jac_storage(c.jac_storage.clone()).maybe_newton_tol(c.newton_tol);
             let s = match (c.max_steps, set_mass_storage) {
                 (Some(m), true) => b.max_steps(m).mass_storage(c.mass_storage.clone()).build(),
                 (Some(m), false) => b.max_steps(m).build(),
